@@ -643,3 +643,30 @@ Example ex_writer_ok :
   ew_write_all (mkW (Some 10) [] 0) [firstn 2 ex_data; firstn 4 (skipn 2 ex_data); skipn 6 ex_data]
   = (mkW (Some 0) ex_data 10, true).
 Proof. vm_compute. reflexivity. Qed.
+
+(* ------------------------------------------------------------------------------------ *)
+(** * 9. packaged statements for Props/C13.v *)
+
+Lemma read_value : forall u lim i mx k,
+  u_fail_after u = None ->
+  (read_ok (u_data u) lim i mx k = true ->
+     exists u', dr_read_io u lim i mx k = OK (firstn (nat_of k) (u_data u), u', lim - k, i + k)
+                /\ u_data u' = skipn (nat_of k) (u_data u) /\ u_fail_after u' = None) /\
+  (read_ok (u_data u) lim i mx k = false -> dr_read_io u lim i mx k = Err).
+Proof.
+  intros u lim i mx k NF. split.
+  - intros R. destruct (dr_read_io_ok u lim i mx k NF R) as (u' & E & S).
+    exists u'. split; [exact E|]. split; [exact (step_rel_data _ _ _ S)|].
+    exact (step_rel_nofail _ _ _ S NF).
+  - exact (dr_read_io_err u lim i mx k NF).
+Qed.
+
+Lemma value_is_prefix : forall u lim i mx k bs u' lim' i',
+  dr_read_io u lim i mx k = OK (bs, u', lim', i') ->
+  bs = firstn (nat_of k) (u_data u) /\ u_data u' = skipn (nat_of k) (u_data u) /\
+  k <= delivered u /\ k <= lim /\ lim' = lim - k /\ i' = i + k.
+Proof.
+  intros u lim i mx k bs u' lim' i' H. apply dr_read_io_OK_inv in H.
+  destruct H as (B & S & L & L' & I). pose proof (step_rel_delivered _ _ _ S) as (D & _).
+  repeat split; try assumption. exact (step_rel_data _ _ _ S).
+Qed.
